@@ -12,6 +12,25 @@ CHECKS = {
         "(validated per run by conformance replays against the natively compiled harness). gcsizes half of C19 is not yet covered.",
    technique="bounded symbolic execution of go/ssa + SMT (z3/cvc5), native replay of models",
    design="3/C19"),
+
+ "C20": dict(
+   level="model_checking",
+   text="Bounded symbolic execution of the real report.Report (all four version-bound options), code.LanguageVersion, code.StdlibVersion and go/version.Compare: "
+        "module version, file //go:build version (absent/present), file language version and the bound are go1.N strings with symbolic decimal digits (0..99); "
+        "for each bound kind the solver decides on every path that the problem is reported iff the documented interval predicate holds.",
+   note="Trusted inputs: types.Info.FileVersions and types.Package.GoVersion (how the loader derives them from go.mod / -go is outside the claim). "
+        "Versions without patch/pre-release suffix. Trusted: go/ssa front-end, z3/cvc5, GoSE (conformance-checked against the native build each run).",
+   technique="bounded symbolic execution of go/ssa + SMT (z3/cvc5), native replay of models",
+   design="3/C20"),
+ "C12": dict(
+   level="model_checking",
+   text="Symbolic execution of the real runFromLintResult, mergeRuns, printDiagnostics (real pdqsort via sort.Slice, de-dup, build-name union) and text formatter for up to 3 runs, "
+        "2 files and 2 problems that differ in exactly one descriptor field; run/problem membership, checked-file sets, merge strategies, build names, transpositions and the repeated run "
+        "are enumerated by forking with every fork decided by the solver; asserted: any/all semantics, exact build-name sets, invariance under adjacent transpositions, idempotence.",
+   note="The space is finite and explored exhaustively within the bound (the solver's part is branch feasibility over boolean/choice inputs). Outside: gob encoding, -matrix orchestration, >3 runs. "
+        "Observed through the text formatter (End is not printed).",
+   technique="bounded symbolic execution of go/ssa + SMT feasibility, native replay of models",
+   design="3/C12"),
 }
 
 NA = {
